@@ -43,13 +43,13 @@ reg("C05", MC, "explicit-state exploration of real step() calls; Butcher tableau
     "'for every RHS' is covered by conformance over the alphabet of real discretisations; Bogey-Bailly coefficients matched to 1e-9", "DESIGN.md 3/C05")
 reg("C07", MC, "explicit-state exploration of the real solve/restart driver over an alphabet of save lists, stop dictionaries, start times, integrators; oracle = the property on a reference trajectory of real steps",
     "Every strictly increasing save list (length <= 3, thorough 4) over 8 ticks (start time, two/three times inside one step, step "
-    "boundaries, before the start, beyond the stop) x 10 stop dictionaries x 2 start times x every integrator class x 3 systems is run "
-    "through the real solve; restart is explored from every snapshot returned by a reduced first level. Each run is judged for iteration "
+    "boundaries, before the start, beyond the stop) x 10 stop dictionaries x 4 start times (0, 0.75, -3.25, 2^27) x every integrator class x 3 systems is run "
+    "through the real solve, in six rotating ways of writing the call (keywords, tuple/array save times, numpy CFL, defaults); restart is explored from every snapshot returned by a reduced first level. Each run is judged for iteration "
     "count, presence/order/stamp of snapshots, values reachable by a forward step <= one CFL step from the reference trajectory, finiteness, "
     "caller's field untouched; non-terminating calls are bounded by a horizon and reported.",
     "4-ulp band on all time comparisons; gear snapshot values only checked for stamp/count/finiteness; implicit snapshot values to 1e-6", "DESIGN.md 3/C07")
 reg("C08", MC, "explicit-state exploration of call histories on one solver object with a differential (bitwise) oracle",
-    "Histories = prefix of <= 2 disturbing solve/restart calls (other field, save lists, stops, monitors) followed by a probe call, on one "
+    "Histories = prefix of <= 2 letters out of 13 disturbing operations (solve/restart with other field, save lists, stops, monitors, CFL, dtlocal, bare stop dictionary, other solver objects) followed by a probe call, plus three deep traces through all letters (not exhaustive at that depth), on one "
     "solver object, for every integrator class x 3 systems x monitors given to solve or to the constructor. The probe's observations "
     "(returned fields, counters, solver.Qn, monitor records) must be bit-identical to the same probe on a fresh object, to sibling probes "
     "differing only in save lists or monitors, and solve(N)+restart(M) to solve(N+M); monitor records are recomputed from a reference trajectory.",
